@@ -803,3 +803,60 @@ func (g *Graph) Establishes(guard Guard, a CondAtom, at *cfg.Block) bool {
 	p := guard(g.U, Branch{B: at, Cond: a.E})
 	return (p > 0 && a.Val) || (p < 0 && !a.Val)
 }
+
+// MayHeldAtExit: mutexes held on SOME path at an exit of the function (a return
+// or the end of the body), without a deferred unlock — a may analysis (union at
+// joins), the dual of HeldAt. Each result names the lock and the exit.
+func (g *Graph) MayHeldAtExit() map[string]token.Pos {
+	in := map[*cfg.Block]map[string]bool{}
+	entry := g.C.Blocks[0]
+	in[entry] = map[string]bool{}
+	work := []*cfg.Block{entry}
+	out := map[string]token.Pos{}
+	du := g.DeferredUnlocks()
+	for len(work) > 0 {
+		b := work[0]
+		work = work[1:]
+		cur := copySet(in[b])
+		for _, n := range b.Nodes {
+			for _, op := range g.lockOpsIn(n) {
+				if op.lock {
+					cur[lockName(op)] = true
+				} else {
+					delete(cur, lockName(op))
+				}
+			}
+		}
+		if len(b.Succs) == 0 {
+			for k := range cur {
+				if !du[k] {
+					p := token.NoPos
+					if len(b.Nodes) > 0 {
+						p = b.Nodes[len(b.Nodes)-1].Pos()
+					}
+					out[k] = p
+				}
+			}
+			continue
+		}
+		for _, s := range b.Succs {
+			old, seen := in[s]
+			if !seen {
+				in[s] = copySet(cur)
+				work = append(work, s)
+				continue
+			}
+			changed := false
+			for k := range cur {
+				if !old[k] {
+					old[k] = true
+					changed = true
+				}
+			}
+			if changed {
+				work = append(work, s)
+			}
+		}
+	}
+	return out
+}
